@@ -27,10 +27,15 @@
 #define IS(res_, rc_, ec_) (res == (res_) && r.resultCode == (rc_) && r.errorCode == (ec_))
 #define IS_OK IS(KSI_OK, KSI_VER_RES_OK, KSI_VER_ERR_NONE)
 
-static u64 pow2floor(u64 x) {      /* largest power of two <= x, x > 0 */
-	u64 k = 1;
-	for (int b = 1; b < 64; b++) if (x >> b) k = 1ull << b;
-	return k;
+static u64 pow2floor(u64 x) {      /* largest power of two <= x, x > 0: position of the top bit by binary search */
+	unsigned s = 0;
+	if (x >> 32) { x >>= 32; s += 32; }
+	if (x >> 16) { x >>= 16; s += 16; }
+	if (x >> 8) { x >>= 8; s += 8; }
+	if (x >> 4) { x >>= 4; s += 4; }
+	if (x >> 2) { x >>= 2; s += 2; }
+	if (x >> 1) { s += 1; }
+	return 1ull << s;
 }
 
 void harness(void) {
